@@ -94,8 +94,10 @@ Lemma do_read_trans s f win cap track :
   s_obj s = ObFlow TRecvBody f -> trans s (fst (do_read s f win cap track)).
 Proof.
   intros Ho. unfold do_read.
-  destruct (recv_body_read f win cap) as [[[f' i] o]| |] eqn:E; cbn [fst]; try apply trans_refl.
-  destruct track; (eapply trans_op; [reflexivity|exact Ho|reflexivity|right; eapply fo_read; exact E]).
+  destruct (recv_body_read f win cap) as [[[f' i] o]|e|] eqn:E; cbn [fst]; try apply trans_refl.
+  - destruct track; (eapply trans_op; [reflexivity|exact Ho|reflexivity|right; eapply fo_read; exact E]).
+  - (* a failed read: the flow continues as [recv_body_after_err], which is a [flow_op] too *)
+    eapply trans_op; [reflexivity|exact Ho|reflexivity|right; eapply fo_read_err; exact E].
 Qed.
 
 Lemma do_write_body_trans s input cap track sum : trans s (fst (do_write_body s input cap track sum)).
